@@ -119,7 +119,7 @@ def tlc_cases(ctx):
 
 
 def tv(ctx, evs, name, shards=None, demo=False):
-    shards = shards or (max(1, len(evs) // 2500) if ctx.tier == 'thorough' else min(3, max(1, len(evs) // 800)))
+    shards = shards or (max(1, len(evs) // 1200) if ctx.tier == 'thorough' else min(3, max(1, len(evs) // 800)))
     chunks = [list(range(i, len(evs), shards)) for i in range(shards)]
     cfg = 'SPECIFICATION TSpec\nPOSTCONDITION Consumed\nCHECK_DEADLOCK FALSE\n'
 
@@ -128,11 +128,11 @@ def tv(ctx, evs, name, shards=None, demo=False):
         p = os.path.join(ctx.build, '%s_shard%d.ndjson' % (name, k))
         vlib.write_ndjson(p, [evs[i] for i in idx])
         rej, drift, res = ctx.tv('TraceJq', 'tj.cfg', p, name='%s_%d' % (name, k), cfg_text=cfg, count=not demo,
-                                 timeout=3000 if ctx.tier == 'thorough' else 900, heap='3g')
+                                 timeout=3000 if ctx.tier == 'thorough' else 900, heap='5g')
         core = [idx[int(m.group(1)) - 1] for m in (re.match(r'<<"CORE",\s*(\d+)>>', ln) for ln in res.raw_printed) if m]
         return [(idx[l - 1], s) for l, s in rej], [idx[l - 1] for l in drift], core
     rejects, drifts, cores = {}, [], []
-    with ThreadPoolExecutor(max_workers=min(shards, 10)) as ex:
+    with ThreadPoolExecutor(max_workers=min(shards, 6)) as ex:      # 6 x 5 GB of TLC heap at most
         for rej, dr, co in ex.map(one, range(shards)):
             for i, s in rej:
                 rejects[i] = s
